@@ -77,6 +77,7 @@ type Exec struct {
 	forallVs map[string]*Val
 	sentinel map[string]bool
 	tscope     *ssa.Function // function whose type parameters are in scope while evaluating a callee contract
+	falseAssumes int
 	curSuffix  string
 	inputTerms []string
 }
